@@ -244,7 +244,12 @@ def check(tier, seed):
                          ("query ($p: Int = 9) { g(py_arg: $p) }", {}),
                          ("query ($t: String) { g(lst: [$t, \"k\"]) }", {}), ("query ($t: String) { g(lst: [$t]) }", {"t": None}),
                          ("query ($t: String) { g(lst: [$t]) }", {"t": "v"}),
-                         ("query ($t: String!) { g(lst2: [$t]) }", {"t": "v"}), ("query ($o: Inner) { g(b: $o) }", {"o": {"req": "q", "again": {"req": "w"}}})]:
+                         ("query ($t: String!) { g(lst2: [$t]) }", {"t": "v"}),
+                         # a defaulted nullable variable may stand at a non-null position; an explicit null for it is refused there, also as a list item / input field
+                         ("query ($t: String = \"d\") { g(lst2: [$t]) }", {}), ("query ($t: String = \"d\") { g(lst2: [$t]) }", {"t": None}),
+                         ("query ($t: String = \"d\") { g(lst2: [\"k\", $t]) }", {"t": None}), ("query ($t: String = \"d\") { g(lst2: [\"k\", $t]) }", {"t": "v"}),
+                         ("query ($r: String = \"z\") { g(b: {req: $r}) }", {"r": None}), ("query ($r: String = \"z\") { g(b: {req: $r}) }", {}),
+                         ("query ($r: String = \"z\") { g(b: {req: \"q\", again: {req: $r}}) }", {"r": None}), ("query ($o: Inner) { g(b: $o) }", {"o": {"req": "q", "again": {"req": "w"}}})]:
         n += 1
         nontrivial += 1
         del calls[:]
